@@ -175,6 +175,13 @@ func CancelCtxAt(at int64) context.Context {
 	return ctx
 }
 
+// CancelCtxEvent (concurrent harnesses): a context the environment may cancel at any moment, or never.
+func CancelCtxEvent(name string) context.Context {
+	ctx, cancel := context.WithCancel(context.Background())
+	_ = cancel
+	return ctx
+}
+
 // TimeAt returns the instant with the given unix nanoseconds.
 func TimeAt(n int64) time.Time { return time.Unix(0, n) }
 
